@@ -145,6 +145,7 @@ impl FixedTransaction {
     pub fn set_body(&mut self, raw_body: &[u8]) -> Result<(), JsError> {
         let body = TransactionBody::from_bytes(raw_body.to_vec())?;
         self.body = body;
+        self.tx_hash = TransactionHash::from(blake2b256(raw_body));
         self.body_bytes = raw_body.to_vec();
         Ok(())
     }
